@@ -718,6 +718,8 @@ Import String.
 Definition b (s : string) : bytes := List.map Ascii.N_of_ascii (list_ascii_of_string s).
 Local Open Scope string_scope.
 Definition T0 : Z := 1641092645012345678%Z.   (* 2022-01-02 03:04:05.012345678 UTC *)
+Ltac fin := vm_compute; first [reflexivity | discriminate | (intros; discriminate)
+                               | (split; [intros; discriminate|reflexivity])].
 
 (* an extra item may not END in '_' unless it is the last component: "A_" then "B1" comes back as "A", "_B1"
    (the item satisfies every rule of the NameExtraItem comment) *)
@@ -728,14 +730,15 @@ Example roundtrip_extra_trailing_us_refuted :
     exists x, parse_name (name_of db inst gen t extras) = Ok x /\ ni_extra x <> extras.
 Proof.
   exists (b "db"), (b "i"), (b "GX"), T0, (b "A_" :: b "B1" :: nil).
-  vm_compute. repeat split; try discriminate. eexists. split; [reflexivity|discriminate].
+  repeat (split; [fin|]).
+  eexists. split; [vm_compute; reflexivity|]. vm_compute. discriminate.
 Qed.
 
 (* the same for a database name ending in '_': the name is accepted, with the wrong database and instance *)
 Example roundtrip_db_trailing_us_refuted :
   exists x, parse_name (name_of (b "db_") (b "i") (b "GX") T0 nil) = Ok x /\
             ni_syncer x = b "db" /\ ni_inst x = b "_i".
-Proof. eexists. vm_compute. repeat split. Qed.
+Proof. eexists. split; [vm_compute; reflexivity|]. vm_compute. split; reflexivity. Qed.
 
 (* "__" inside a component shifts every later field; here the name is then rejected *)
 Example roundtrip_sep_inside_refuted :
@@ -758,7 +761,8 @@ Example other_db_unsafe_refuted :
     exists x, parse_name (name_of d' inst (b "GX") t nil) = Ok x /\ ni_syncer x = d /\ ni_inst x = b "b".
 Proof.
   exists (b "a"), (b "a__b"), (b "20240101-000000-000000000"), T0.
-  vm_compute. repeat split; try discriminate. eexists. repeat split.
+  repeat (split; [fin|]).
+  eexists. split; [vm_compute; reflexivity|]. vm_compute. split; reflexivity.
 Qed.
 
 (* time.Parse tolerates a sign where the fraction starts: such names are accepted although BuildName
@@ -766,7 +770,7 @@ Qed.
 Example signed_fraction_accepted :
   exists x, parse_name (b "db__i__20220102-030405-+12345678__GX.pb.gz") = Ok x /\
             ni_ts x = 1641092645012345678%Z /\ ni_tss x <> format_ts (ni_ts x).
-Proof. eexists. vm_compute. repeat split. discriminate. Qed.
+Proof. eexists. split; [vm_compute; reflexivity|]. vm_compute. split; [reflexivity|discriminate]. Qed.
 
 Example signed_fraction_order_refuted :
   exists n1 n2 x1 x2, parse_name n1 = Ok x1 /\ parse_name n2 = Ok x2 /\
@@ -774,13 +778,14 @@ Example signed_fraction_order_refuted :
     bcmp n1 n2 = Lt /\ (ni_ts x2 < ni_ts x1)%Z.
 Proof.
   exists (b "db__i__20220102-030405-+99999999__GX.pb.gz"), (b "db__i__20220102-030405-000000000__GX.pb.gz").
-  eexists. eexists. vm_compute. repeat split.
+  eexists. eexists. split; [vm_compute; reflexivity|]. split; [vm_compute; reflexivity|].
+  vm_compute. repeat split.
 Qed.
 
 (* ParseName accepts instants that are not int64 nanoseconds (any year 0000..9999) *)
 Example parse_beyond_int64 :
   exists x, parse_name (b "db__i__22620411-234716-854775808__GX.pb.gz") = Ok x /\ ni_ts x = two63z.
-Proof. eexists. vm_compute. repeat split. Qed.
+Proof. eexists. split; [vm_compute; reflexivity|]. vm_compute. reflexivity. Qed.
 
 (* NameTimestampFromNano reinterprets the uint64 as int64: 2^63 is named 1677-09-21 and sorts first *)
 Example from_nano_wrap_refuted :
